@@ -348,9 +348,14 @@ pub fn run(tier: &str) -> i32 {
     // an operation in a branch that is not chosen, or in a function that is not called, is not
     // evaluated - not even by the folder when the function value capturing its operands is created
     let unreached = crate::core::on_big_stack(|| crate::props::c12::unreached_failures("C07"));
+    // which branch is the chosen one: if-set, match type arms and `? T` choose by the run-time type
+    // of the value, whatever the checker knows about the tested expression (shared with C10)
+    let membership = crate::props::c10::language_membership();
+    report.violations(membership.1.into_iter().map(|v| Violation { sig: v.sig.replacen("C10|language-membership", "C07|branch-chosen-by-run-time-type", 1), detail: v.detail }));
     report.violations(unreached.1);
     let coverage = json!({
         "unreached_failure_cases": unreached.0,
+        "branch_choice_cases (if-set / match type arm / ? T on value x tested type x static type; shared with C10)": membership.0,
         "states": programs,
         "transitions": programs,
         "traces_validated_against_impl": programs,
